@@ -50,7 +50,7 @@ func C12() *runner.Property {
 		CaseTimeout: 120e9,
 		Cases: func(tier string, seed int64) []runner.Case {
 			r := rng.New(uint64(seed) ^ 0xC12)
-			nd, ns := 40, 24
+			nd, ns := 160, 48
 			if tier == "thorough" {
 				nd, ns = 12000, 2000
 			}
